@@ -848,6 +848,9 @@ func runC10(c *Ctx) {
 
 	// ---------- R8 Filecmd only sees methods it is documented for ----------
 	checkFilecmdMethodNames(c, "R8")
+
+	// ---------- R9 listings as given: the cursor protocol of filelist (shared with C16.R1) ----------
+	c.withRule("R9", func() { checkListingCursor(c) })
 }
 
 func ptrNamed(p *Program, name string) types.Type {
